@@ -79,10 +79,9 @@ Proof.
   intros e2 E. apply edit_chain_joint; eauto using xeqv_sym, xeqv_trans.
 Qed.
 
-(* ------------------------------------------------------------------ known defect classes (predicates on the state an operation is applied to)
-   The four classes this file used to carry (known_sauce_size, known_setfont, known_addfont, known_fontslot) were repaired by fix commits:
-   every modelled operation is now sound on EVERY state (`never`). The old records and their witnesses: end of this file (`*_before_fix_refuted_proof`). *)
-Definition never (s : xstate) : Prop := False.
+(* The known defect classes this file used to carry as predicates on the state an operation is applied to (known_sauce_size, known_setfont,
+   known_addfont, known_fontslot) were repaired by fix commits: every modelled operation is sound on EVERY state, `xmodelled` has no class
+   index any more. The old records and their witnesses: end of this file (`*_before_fix_refuted_proof`). *)
 
 (* ------------------------------------------------------------------ stage 1: component swaps *)
 Lemma x_resize_buffer_sound w h e e' : x_resize_buffer w h e = Ok e' -> xedit_chain e e'.
@@ -490,54 +489,54 @@ Proof.
   destruct 1; try (apply modelled_sound; constructor; assumption); [apply api_stamp_layer_down_sound|apply api_scroll_area_lr_sound].
 Qed.
 
-Inductive xmodelled : (XE -> res XE) -> (xstate -> Prop) -> Prop :=
-| xm_lift f : liftable f -> xmodelled (lift_edit f) never
-| xm_flip_x ftabs : xmodelled (x_flip_x ftabs) never
-| xm_flip_y ftabs : xmodelled (x_flip_y ftabs) never
-| xm_resize_buffer w h : xmodelled (x_resize_buffer w h) never
-| xm_switch_to_palette p : xmodelled (x_switch_to_palette p) never
-| xm_update_sauce_data d : xmodelled (x_update_sauce_data d) never
-| xm_switch_to_font_page p : xmodelled (x_switch_to_font_page p) never
-| xm_set_font sv newf : xmodelled (x_set_font sv newf) never
-| xm_add_ansi_font page newf : xmodelled (x_add_ansi_font page newf) never
-| xm_replace_font_usage a b : xmodelled (x_replace_font_usage a b) never
-| xm_change_font_slot a b : xmodelled (x_change_font_slot a b) never
-| xm_remove_font f : xmodelled (x_remove_font f) never
-| xm_set_ice_mode conv mode : xmodelled (x_set_ice_mode_gen conv mode) never
-| xm_set_palette_mode plan mode : xmodelled (x_set_palette_mode_gen plan mode) never
-| xm_merge_layer_down n : xmodelled (x_merge_layer_down n) never
-| xm_anchor_layer : xmodelled x_anchor_layer never
-| xm_paste L : xmodelled (x_paste_clipboard_data L) never
-| xm_crop_rect r : xmodelled (x_crop_rect r) never
-| xm_crop : xmodelled x_crop never
-| xm_resize_buffer_layers w h : xmodelled (x_resize_buffer_layers w h) never
-| xm_clear_selection : xmodelled x_clear_selection never
-| xm_add_selection_to_mask : xmodelled x_add_selection_to_mask never
-| xm_inverse_selection : xmodelled x_inverse_selection never
-| xm_enumerate_selections f : xmodelled (x_enumerate_selections f) never
-| xm_erase_selection : xmodelled x_erase_selection never
-| xm_center_line : xmodelled x_center_line never
-| xm_justify_line_left : xmodelled x_justify_line_left never
-| xm_justify_line_right : xmodelled x_justify_line_right never
-| xm_erase_row : xmodelled x_erase_row never
-| xm_erase_row_to_start : xmodelled x_erase_row_to_start never
-| xm_erase_row_to_end : xmodelled x_erase_row_to_end never
-| xm_erase_column : xmodelled x_erase_column never
-| xm_erase_column_to_start : xmodelled x_erase_column_to_start never
-| xm_erase_column_to_end : xmodelled x_erase_column_to_end never
-| xm_rotate_layer rtab : xmodelled (x_rotate_layer rtab) never
-| xm_scroll_area_ud up : xmodelled (x_scroll_area_ud up) never
-| xm_delete_row : xmodelled x_delete_row never
-| xm_insert_row : xmodelled x_insert_row never
-| xm_delete_column : xmodelled x_delete_column never
-| xm_insert_column : xmodelled x_insert_column never.
+Inductive xmodelled : (XE -> res XE) -> Prop :=
+| xm_lift f : liftable f -> xmodelled (lift_edit f)
+| xm_flip_x ftabs : xmodelled (x_flip_x ftabs)
+| xm_flip_y ftabs : xmodelled (x_flip_y ftabs)
+| xm_resize_buffer w h : xmodelled (x_resize_buffer w h)
+| xm_switch_to_palette p : xmodelled (x_switch_to_palette p)
+| xm_update_sauce_data d : xmodelled (x_update_sauce_data d)
+| xm_switch_to_font_page p : xmodelled (x_switch_to_font_page p)
+| xm_set_font sv newf : xmodelled (x_set_font sv newf)
+| xm_add_ansi_font page newf : xmodelled (x_add_ansi_font page newf)
+| xm_replace_font_usage a b : xmodelled (x_replace_font_usage a b)
+| xm_change_font_slot a b : xmodelled (x_change_font_slot a b)
+| xm_remove_font f : xmodelled (x_remove_font f)
+| xm_set_ice_mode conv mode : xmodelled (x_set_ice_mode_gen conv mode)
+| xm_set_palette_mode plan mode : xmodelled (x_set_palette_mode_gen plan mode)
+| xm_merge_layer_down n : xmodelled (x_merge_layer_down n)
+| xm_anchor_layer : xmodelled x_anchor_layer
+| xm_paste L : xmodelled (x_paste_clipboard_data L)
+| xm_crop_rect r : xmodelled (x_crop_rect r)
+| xm_crop : xmodelled x_crop
+| xm_resize_buffer_layers w h : xmodelled (x_resize_buffer_layers w h)
+| xm_clear_selection : xmodelled x_clear_selection
+| xm_add_selection_to_mask : xmodelled x_add_selection_to_mask
+| xm_inverse_selection : xmodelled x_inverse_selection
+| xm_enumerate_selections f : xmodelled (x_enumerate_selections f)
+| xm_erase_selection : xmodelled x_erase_selection
+| xm_center_line : xmodelled x_center_line
+| xm_justify_line_left : xmodelled x_justify_line_left
+| xm_justify_line_right : xmodelled x_justify_line_right
+| xm_erase_row : xmodelled x_erase_row
+| xm_erase_row_to_start : xmodelled x_erase_row_to_start
+| xm_erase_row_to_end : xmodelled x_erase_row_to_end
+| xm_erase_column : xmodelled x_erase_column
+| xm_erase_column_to_start : xmodelled x_erase_column_to_start
+| xm_erase_column_to_end : xmodelled x_erase_column_to_end
+| xm_rotate_layer rtab : xmodelled (x_rotate_layer rtab)
+| xm_scroll_area_ud up : xmodelled (x_scroll_area_ud up)
+| xm_delete_row : xmodelled x_delete_row
+| xm_insert_row : xmodelled x_insert_row
+| xm_delete_column : xmodelled x_delete_column
+| xm_insert_column : xmodelled x_insert_column.
 
 Lemma xlift_sound f : bsound_edit f -> forall e e', xlift f e = Ok e' -> xedit_chain e e'.
 Proof. exact (lift_edit_sound f). Qed.
 
-Theorem xmodelled_sound f K : xmodelled f K -> forall e e', ~ K (cur e) -> f e = Ok e' -> xedit_chain e e'.
+Theorem xmodelled_sound f : xmodelled f -> forall e e', f e = Ok e' -> xedit_chain e e'.
 Proof.
-  destruct 1 as [f Hl| | | | | | | | | | | | | | | | | | | | | | | | | | | | | | | | | | | | | | |]; intros e e' HK H;
+  destruct 1 as [f Hl| | | | | | | | | | | | | | | | | | | | | | | | | | | | | | | | | | | | | | |]; intros e e' H;
   try solve [eauto using x_resize_buffer_sound, x_switch_to_palette_sound, x_update_sauce_data_sound, x_switch_to_font_page_sound,
     x_set_font_sound, x_add_ansi_font_sound, x_replace_font_usage_sound, x_change_font_slot_sound, x_remove_font_sound,
     x_set_ice_mode_gen_sound, x_set_palette_mode_gen_sound, x_merge_layer_down_sound, x_anchor_layer_sound, x_paste_clipboard_data_sound,
@@ -552,24 +551,14 @@ Proof.
   - eapply (x_line_op_sound row_sel (xlift api_justify_right)); [apply xlift_sound, api_justify_right_sound|exact H].
 Qed.
 
-(* no known class is left: every constructor carries `never` *)
-Lemma xmodelled_never f K : xmodelled f K -> K = never.
-Proof. destruct 1; reflexivity. Qed.
-
-Theorem xmodelled_sound_everywhere f K : xmodelled f K -> (forall s, ~ K s) /\ forall e e', f e = Ok e' -> xedit_chain e e'.
-Proof.
-  intro Hm. pose proof (xmodelled_never _ _ Hm) as ->. split; [intros s []|].
-  intros e e' H. eapply xmodelled_sound; [exact Hm|intros []|exact H].
-Qed.
-
-(* a history: every operation is modelled, is applied outside its known class, and reports Ok *)
+(* a history: every operation is modelled and reports Ok *)
 Inductive xrun : list (XE -> res XE) -> XE -> XE -> Prop :=
 | xrun_nil e : xrun [] e e
-| xrun_cons f K fs e e1 e2 : xmodelled f K -> ~ K (cur e) -> f e = Ok e1 -> xrun fs e1 e2 -> xrun (f :: fs) e e2.
+| xrun_cons f fs e e1 e2 : xmodelled f -> f e = Ok e1 -> xrun fs e1 e2 -> xrun (f :: fs) e e2.
 
 Lemma xrun_chain fs e e' : xrun fs e e' -> xedit_chain e e'.
 Proof.
-  induction 1 as [e|f K fs e e1 e2 Hm HK Hf Hr IH]; [apply xchain_refl|].
+  induction 1 as [e|f fs e e1 e2 Hm Hf Hr IH]; [apply xchain_refl|].
   eapply xchain_trans; [eapply xmodelled_sound; eauto|exact IH].
 Qed.
 
